@@ -191,8 +191,8 @@ func main() {
 		runner.RunWorker(append(append(scenarios(false), scenarios(true)...), append(adapterScenarios(false), adapterScenarios(true)...)...))
 	}
 	rep := report.New("C01", "exploration")
-	rep.Rule = "every schedule within the deviation bound (preemptions + non-default successor choices) of publisher / joiner (attach, detach) / delivery goroutines on the real media layer; distinct = distinct (scenario, records of A and B) outcomes"
-	rep.Assumptions = []string{"sequentially consistent memory", "transport adapters are covered by the sequential adapter sweep (C01 part b) and C13"}
+	rep.Rule = "(a) every schedule within the deviation bound (preemptions + non-default successor choices) of publisher / joiner (attach, detach) / delivery goroutines on the real media layer, also with statement-level points in the media files; (b) transport adapters end to end: a real publisher session pushes interleaved frames on all four channels while players of every transport (RTSP/TCP, RTSP/UDP and two multicast members over a logging fake UDP socket, ws-rtsp, WSP, HTTP-FLV, WebSocket-FLV) attach and detach through their own real sessions/handlers; every operation sequence of the given length with at most E attach/detach events is enumerated (environment choices), leaving by TEARDOWN and by disconnect; each player must have received exactly the packets published while it was attached (FLV players: exactly the tags a plain FLV consumer attached over the same interval received); distinct = distinct (scenario, outcome) pairs"
+	rep.Assumptions = []string{"sequentially consistent memory", "part (b) runs every operation to quiescence before the next one (expected reception is then exact); interleavings inside the adapters are C13's subject"}
 	runner.FineP = 2 // statement-level points in the files of fine.txt
 	if rep.Thorough() {
 		runner.FineP = 2
